@@ -202,7 +202,28 @@ pub(super) fn order_compare_non_null(left: &Value, right: &Value) -> Option<Orde
 }
 
 fn compare_strings_with_temporal(left: &str, right: &str) -> Ordering {
-    match (parse_temporal_string(left), parse_temporal_string(right)) {
+    // Strings double as temporal values.  Two strings of the same temporal kind compare by
+    // instant, everything else byte-wise; to keep this a total order (sorting needs one) the
+    // kinds themselves are ordered first: plain strings, then dates, local times, times, local
+    // date-times, date-times.  Mixing "same kind => temporal, otherwise byte-wise" pairwise is
+    // not transitive ('2020-01-10' < '2020-1' < '2020-1-2' byte-wise, yet Jan 2 < Jan 10).
+    // Different spellings of one instant are different strings: the final tie-break is byte-wise.
+    let (l, r) = (parse_temporal_string(left), parse_temporal_string(right));
+    fn kind(v: &Option<TemporalValue>) -> u8 {
+        match v {
+            None => 0,
+            Some(TemporalValue::Date(_)) => 1,
+            Some(TemporalValue::LocalTime(_)) => 2,
+            Some(TemporalValue::Time { .. }) => 3,
+            Some(TemporalValue::LocalDateTime(_)) => 4,
+            Some(TemporalValue::DateTime(_)) => 5,
+        }
+    }
+    let by_kind = kind(&l).cmp(&kind(&r));
+    if by_kind != Ordering::Equal {
+        return by_kind;
+    }
+    let by_value = match (l, r) {
         (Some(TemporalValue::Date(l)), Some(TemporalValue::Date(r))) => l.cmp(&r),
         (Some(TemporalValue::LocalTime(l)), Some(TemporalValue::LocalTime(r))) => {
             compare_time_of_day(l, r)
@@ -219,8 +240,9 @@ fn compare_strings_with_temporal(left: &str, right: &str) -> Ordering {
         ) => compare_time_with_offset(lt, lo, rt, ro),
         (Some(TemporalValue::LocalDateTime(l)), Some(TemporalValue::LocalDateTime(r))) => l.cmp(&r),
         (Some(TemporalValue::DateTime(l)), Some(TemporalValue::DateTime(r))) => l.cmp(&r),
-        _ => left.cmp(right),
-    }
+        _ => Ordering::Equal,
+    };
+    by_value.then_with(|| left.cmp(right))
 }
 
 #[cfg(test)]
